@@ -58,3 +58,19 @@ META = {
                 bounds=dict(COMMON_BOUNDS, sizes='nlon 2-3, nz 2-3, nb 1-2', outside='Cray-pointer / C_F_POINTER / LOC based allocators (reported per run as not encoded), pool allocator'),
                 assumptions=COMMON_ASSUME),
 }
+
+META['C36'] = dict(
+    rule=('each Fortran template x size instance (quick: first size instance; thorough: all): the real FortranPythonTransformation '
+          '(+ pygen) is run on the freshly parsed routine; the ORIGINAL is interpreted with Fortran semantics, the GENERATED '
+          'function (Python ast) with Python/numpy semantics (true division, dynamic typing of names, zero-based/wrapping/IndexError '
+          'indexing, dtype-preserving stores, name rebinding, NameError on undefined callables) on the same symbolic inputs, called '
+          'the way the repository tests call it; z3 decides whether any input makes a returned scalar or an array element differ '
+          'or the Python function raise; sat models are replayed: gfortran build of the original vs CPython+numpy run of the '
+          'generated module (relative tolerance 1e-6 on reals).'),
+    functions=['FortranPythonTransformation.transform_subroutine', 'pygen / PyCodegen / PyCodeMapper', 'shift_to_zero_indexing',
+               'replace_intrinsics', 'convert_to_lower_case'],
+    bounds=dict(COMMON_BOUNDS, outside='with_dace / invert_indices variants, derived-type arguments, real32 rounding (reals are compared '
+                'as exact values, replay tolerance 1e-6), integer overflow of np.int32 (|v| <= 6), exponents outside 0..3, '
+                'SELECT CASE / WHERE / EXIT (no pygen handler: not in the transpilable subset)'),
+    assumptions=COMMON_ASSUME + ['executions in which the original reads a variable before defining it are excluded',
+                                 'numpy semantics as modelled in vlib/fsmt/pysem.py; every counterexample is confirmed by CPython+numpy'])
